@@ -1,4 +1,5 @@
 import Eru.Book.ProofsCalc
+import Eru.Book.ProofsMerge
 /-
 C07 — Reported deploy capacity equals what an allocation accepts.
 Property theorems only; helper lemmas live in Eru/Book/Proofs*.lean.
@@ -10,7 +11,13 @@ open Eru Eru.Book
 /-- Plugin level, bound and memory-only requests, any scheduler: for an instance count
     `1 ≤ k ≤ MaxInt`, `CalculateDeploy` accepts `k` iff `k` is at most the capacity reported by
     `doGetNodeDeployCapacity` for the same (validated) request — i.e. the reported capacity is
-    the largest accepted count (negative free memory and `memory = 0 ↦ MaxInt` included). -/
+    the largest accepted count (negative free memory and `memory = 0 ↦ MaxInt` included).
+    ASSUMPTION made explicit for bound requests: capacity and admission each call the scheduler, here
+    the *same function value* `sched n [] req`.  The real `GetCPUPlans` visits NUMA groups in Go map
+    order, so two calls may return the plans in different orders; the statement transfers to the
+    code provided the *number* of plans does not depend on that order (to be proved by group
+    "sched" as `getCPUPlans_length_order_indep`; the correspondence check compares the reported
+    capacity with admission at cap-1, cap, cap+1 on NUMA nodes on every run). -/
 theorem capacity_is_max_accepted (sched : Sched) (n : NodeInfo) (req0 req : Req)
     (hv : req0.validate = .ok req) (k : Int) (hk1 : 1 ≤ k) (hk2 : k ≤ maxInt) :
     (calculateDeploy sched n k req0).isOk = true ↔ k ≤ deployCapacity sched n req := by
@@ -182,6 +189,74 @@ theorem manager_capacity_is_max_accepted (sched : Sched) (ex : Extras) (n : Node
     · simp only [c1, c2, if_false] at hcd
       cases hcd
       exact ⟨_, alloc_memory_usage n hw hval k.toNat _ rfl rfl⟩
+
+/-! ### `mergedCapacity` is what the manager's merge computes -/
+
+/-- the plugins' answers about one node: cpumem offers it iff its capacity is positive, a scripted
+    plugin offers it with its scripted capacity -/
+def extraAnswer (node : String) : Option Int → Answer
+  | some v => [(node, { cap := v })]
+  | none => []
+
+def answersFor (node : String) (c : Int) (ex : Extras) : List Answer :=
+  (if c > 0 then [(node, ({ cap := c } : Cap))] else []) :: ex.map (extraAnswer node)
+
+theorem find_extraAnswer (node : String) (e : Option Int) :
+    (extraAnswer node e).find? node = e.map fun v => ({ cap := v } : Cap) := by
+  cases e <;> simp [extraAnswer, Answer.find?]
+
+theorem offered_extras (node : String) (ex : Extras) :
+    offeredByAll (ex.map (extraAnswer node)) node = ex.all (·.isSome) := by
+  induction ex with
+  | nil => rfl
+  | cons e rest ih =>
+    simp only [offeredByAll, List.map_cons, List.all_cons] at ih ⊢
+    rw [ih, find_extraAnswer]; cases e <;> rfl
+
+theorem capsOf_extras (node : String) (ex : Extras) (h : ex.all (·.isSome) = true) :
+    capsOf (ex.map (extraAnswer node)) node = ex.map (·.getD 0) := by
+  induction ex with
+  | nil => rfl
+  | cons e rest ih =>
+    cases e with
+    | none => simp at h
+    | some v =>
+      have hr : rest.all (·.isSome) = true := by simpa using h
+      simp only [capsOf, List.map_cons, List.filterMap_cons, find_extraAnswer, Option.map_some, Option.getD_some] at ih ⊢
+      rw [ih hr]
+
+/-- The `mergedCapacity` used in the manager-level theorems is the capacity that the model of
+    `Manager.GetNodesDeployCapacity` (`managerDeployCapacity`: fold of `mergeCapacity`, weighted
+    average) reports for the node, and the node is offered exactly when cpumem's capacity is
+    positive and every other plugin offers it. -/
+theorem mergedCapacity_eq_manager (node : String) (c : Int) (ex : Extras) :
+    ((managerDeployCapacity (answersFor node c ex)).1.find? node).map (·.cap) =
+      if c > 0 ∧ ex.all (·.isSome) = true then some (mergedCapacity c ex) else none := by
+  have hfind : (managerDeployCapacity (answersFor node c ex)).1.find? node = (mergedOf (answersFor node c ex) node).map average := by
+    unfold managerDeployCapacity
+    simp only
+    rw [← mergeFold_find]
+    exact find_map _ average node
+  rw [hfind]
+  unfold mergedOf
+  have hne : answersFor node c ex ≠ [] := by simp [answersFor]
+  by_cases hc : c > 0
+  · have hoff : offeredByAll (answersFor node c ex) node = ex.all (·.isSome) := by
+      have := offered_extras node ex
+      simp only [offeredByAll, answersFor, hc, if_true, List.all_cons, Answer.find?, Option.isSome_some, Bool.true_and] at this ⊢
+      exact this
+    by_cases hall : ex.all (·.isSome) = true
+    · have hmin : minCap (answersFor node c ex) node = mergedCapacity c ex := by
+        have hcaps := capsOf_extras node ex hall
+        unfold capsOf at hcaps
+        unfold minCap mergedCapacity
+        simp only [answersFor, hc, if_true, List.filterMap_cons, Answer.find?, Option.map_some, hcaps, hall, and_self]
+        rw [List.foldl_map]
+      simp [hne, hoff, hall, hc, hmin, average]
+    · simp [hne, hoff, hall]
+  · have hoff : offeredByAll (answersFor node c ex) node = false := by
+      simp [offeredByAll, answersFor, hc, Answer.find?]
+    simp [hoff, hc]
 
 /-- Nodes with zero (or negative) capacity are not offered by the plugin, and every offered
     node is reported with its positive capacity. -/
